@@ -144,9 +144,9 @@ def buffer_stores(prog, fn, field=None):
             base = s.place([place[0], pre, ""]) if pre else s.local(place[0])
             base = resolve_var(prog, fn, base, s)
             fl = [t for t in walk(base) if t[0] == "field"]
-            if not fl:
-                continue
             if field is not None and not any(t[2] == field for t in fl):
+                continue
+            if field is None and not fl and base[0] != "param":
                 continue
             ie = s.local(idx[0][1]) if idx[0][0] == "[]" else ("const", idx[0][1])
             ie = resolve_var(prog, fn, ie, s)
